@@ -40,9 +40,12 @@ func fmtGomod() *format {
 			{name: "blank", labels: []string{"none", "blank-lines-in-blocks"}},
 			{name: "extra", labels: []string{"none", "exclude-retract-unrelated-replace"}},
 			{name: "order", labels: []string{"require-first", "replace-exclude-first"}},
+			// the go.mod lexer treats blanks and tabs alike; testdata/replace-*.mod indent with 4 spaces
+			{name: "ws", labels: []string{"tab-indent-single-space", "space-indent-wide-gaps-trailing-blanks"}},
 			{name: "replaced", kind: posIdx, labels: []string{"all-versions", "this-version"}},
 		},
-		newEx: func() filesystem.Extractor { return gomod.New() },
+		newEx:       func() filesystem.Extractor { return gomod.New() },
+		maxThorough: 3,
 		norm: func(r rec) rec {
 			r.Version = strings.TrimPrefix(r.Version, "v")
 			return r
@@ -146,6 +149,23 @@ func fmtGomod() *format {
 			lines = append(append(lines, req...), other...)
 		} else {
 			lines = append(append(lines, other...), req...)
+		}
+		if l.get("ws") == 1 {
+			for k, ln := range lines {
+				if ln == "" || strings.HasPrefix(strings.TrimLeft(ln, "\t"), "//") {
+					continue
+				}
+				code, cmt, has := strings.Cut(ln, " //")
+				code = strings.ReplaceAll(code, "\t", "    ")
+				code = strings.ReplaceAll(code, " v", "  \t v") // gap before every version token
+				code = strings.ReplaceAll(code, " => ", "\t=>  ")
+				if has {
+					code += "\t //" + cmt
+				} else {
+					code += "  "
+				}
+				lines[k] = code
+			}
 		}
 		return genOut{file: finish(lines, eolOf(l.get("eol")), l.get("trail")), truth: truth}
 	}
